@@ -194,7 +194,7 @@ def job(n, seed):
 
 
 def jobs(tier, seed):
-    k = 1 if tier == "quick" else 50
+    k = 1 if tier == "quick" else 20
     return [{"fn": "vf.props.c07:job", "args": {"n": 4000 * k, "seed": seed * 1000 + s}} for s in range(16)]
 
 
